@@ -29,6 +29,9 @@ def cases(rng, tier):
         ms = list(dict.fromkeys(ms))
         toks = ["%s %x" % m for m in ms]
         keys = ["k%d" % i for i in range(rng.choice([0, 1, 2, 8]))]
+        if rng.chance(1, 3):
+            # keys that differ only in letter case are different keys of the attribute map
+            keys += rng.choice([["Path", "path"], ["tls", "TLS", "Tls"], ["a", "A", "é", "É"], ["Model", "model", "MODEL", "mOdel"]])
         for k in keys:
             v = rng.choice([None, "", "v", "é"])
             toks.append("A %s %s" % (k.encode().hex(), "N" if v is None else "V " + (v.encode().hex() or "-")))
